@@ -40,6 +40,9 @@ func (c *cache) runFlushLoop() {
 }
 
 func (c *cache) flushScheduler() {
+	if err := verifhook.Fault("wc.flush.scheduler"); err != nil {
+		return
+	}
 	var tick = time.NewTicker(defaultMaxBatchDelay)
 
 	for {
